@@ -174,11 +174,11 @@ class PDFPage:
                 log.warning(warning_msg)
         # Process each page contained in the document.
         for pageno, page in enumerate(cls.create_pages(doc)):
+            if maxpages and maxpages <= pageno:
+                break
             if pagenos and (pageno not in pagenos):
                 continue
             yield page
-            if maxpages and maxpages <= pageno + 1:
-                break
 
     def _parse_mediabox(self, value: Any) -> Rect:
         us_letter = (0.0, 0.0, 612.0, 792.0)
